@@ -473,4 +473,57 @@ w("many/texts.jsx", "\n".join([f"const s{i} = <div title=\"title number {i}\">te
 w("many/attrs.jsx", "const big = <div " + " ".join(f"attr{i}={{v{i}}}" for i in range(N)) + " />;\nconst again = <Comp " + " ".join(f"attr{i}={{w{i}}}" for i in range(300)) + ">{k}</Comp>;")
 w("many/components.jsx", "\n".join([f"const c{i} = <Comp{i} p={{x}}>{{f{i}()}}</Comp{i}>;" for i in range(800)] + [f"const g{i} = <Comp{i}>{{g()}}</Comp{i}>;" for i in range(40)]))
 w("many/types.tsx", hdr + "interface Big { " + " ".join(f"prop{i}{'?' if i % 3 == 0 else ''}: {['string', 'number', 'boolean', 'Date', '() => void'][i % 5]};" for i in range(N)) + " }\ntype Ev = { " + " ".join(f"(e: 'ev{i}'): void;" for i in range(600)) + " }\nconst C = defineComponent((p: Big, c: SetupContext<Ev>) => {});\nconst D = defineComponent((p: Pick<Big, 'prop0' | 'prop1' | 'prop2599'>) => {});", '{"resolveType":true,"optimize":true}')
+
+# ---- K. the same NAMES bound to different things in sibling modules (type aliases, interfaces, enums, emits types,
+# component names, imported helpers): state that is keyed by a name - without what the name is bound to in THIS
+# module - and that survives from one module to the next (or survives an aborted transform) shows when a sibling
+# follows; the siblings stratum runs A;B;A, the crash sweep [A crashed at k; B; A]
+tvars = [
+    ("num", "number", "string", "{ (e: 'change', v: number): void }", "A, B", "{ base: string }", "{ extra?: number }"),
+    ("lit", "'small' | 'large'", "number", "{ (e: 'input'): void; (e: 'blur'): void }", "A = 'a', B = 'b'", "{ base: number; more: boolean }", "{ extra: () => void }"),
+    ("bool", "boolean", "Date", "(e: 'open' | 'close') => void", "A = 1, B = 'b'", "{ other: string[] }", "{ base: symbol }"),
+    ("arr", "string[]", "boolean | null", "{ close: []; pick: [id: number] }", "Z", "Record<string, number>", "{}"),
+    ("fn", "() => void", "{ nested: number }", "{ (e: Size2): void }", "A = 'x'", "Pick<Model, 'value'>", "Partial<Model>"),
+    ("obj", "{ a: 1 }", "any", "BaseEv & { (e: 'more'): void }", "A", "Model", "{ size: Size }"),
+    ("union", "string | number | boolean", "string | undefined", "BaseEv", "B = 2", "{ base?: Size }", "{ value: bigint }"),
+    ("ref", "Other", "Other['x']", "{ (e: Kind): void }", "A = 'k'", "Other", "{ x: number }"),
+]
+for n, size, val, ev, kind, base, extra in tvars:
+    w(f"names-clash/types-{n}.tsx", hdr + "\n".join([
+        f"type Size = {size};", "type Size2 = 'two' | 'deux';", "type Other = { x: string; y?: Size };", f"interface Model {{ value: {val}; label?: string }}",
+        "type BaseEv = { (e: 'base'): void };", f"type Ev = {ev};", f"enum Kind {{ {kind} }}", f"type Base = {base};", f"type Extra = {extra};",
+        "const C = defineComponent((p: { size: Size; model: Model; m: Model['value']; k?: Kind; o: Other }, c: SetupContext<Ev>) => () => <div class={p.size}>{p.m}</div>);",
+        "const D = defineComponent((p: Base & Extra) => {});",
+        "const E = defineComponent(({ size = undefined, model }: { size?: Size; model?: Model } ) => {});",
+        "function scoped() { type Size = Model; return defineComponent((p: { size: Size; again: Other['y'] }) => {}); }",
+        "const bad = <input v-model=\"value\" />;", "const F = defineComponent((p: Size extends string ? Base : Extra) => {});", "const tail = <Comp v-slots={s}>{k}</Comp>;",
+    ]), '{"resolveType":true,"optimize":true}')
+cvars = [
+    ("imported", "import { Comp, foo, Fragment as F2 } from './lib';\nimport { Fragment, KeepAlive } from 'vue';"),
+    ("local", "const Comp = {}, foo = () => 1;\nfunction Fragment() {}\nconst KeepAlive = {};"),
+    ("unresolved", "// nothing is declared or imported here"),
+    ("vue-ns", "import * as Vue from 'vue';\nconst { Fragment } = Vue;\nlet Comp, foo;"),
+    ("shadow", "import { Comp } from './lib';\nfunction wrap(Comp, foo, Fragment) { return <Comp>{foo}<Fragment>{foo}</Fragment></Comp>; }"),
+    ("helpers-taken", "import { createVNode as _createVNode, Fragment as _Fragment, resolveComponent as _resolveComponent } from 'vue';\nconst _isSlot = 1, _slot = 2, Comp = 3;"),
+]
+for n, pre in cvars:
+    w(f"names-clash/comps-{n}.jsx", pre + "\n" + "\n".join([
+        "const a = <Comp>{foo}</Comp>;", "const b = <Comp>{foo()}</Comp>;", "const c = <Fragment><Comp a={foo} /></Fragment>;", "const d = <KeepAlive><Comp>{bar}</Comp></KeepAlive>;",
+        "const e = <><Comp v-slots={foo}>{foo}</Comp></>;", "const f = () => <Comp>{foo}{bar}</Comp>;", "foo = <Comp>{foo}</Comp>;", "const g = <x-comp><comp>{foo}</comp></x-comp>;", "const bad = <div v-html />;", "const h = <Comp>{() => foo}</Comp>;",
+    ]))
+dvars = [
+    ("vue", "import { defineComponent, type SetupContext } from 'vue';"),
+    ("alias", "import { defineComponent as dc, type SetupContext } from 'vue';\nconst defineComponent = (x: unknown) => x;"),
+    ("local", "function defineComponent(x: unknown) { return x }\ntype SetupContext<T> = T;"),
+    ("other", "import { defineComponent, type SetupContext } from 'not-vue';"),
+    ("ns", "import * as Vue from 'vue';\nconst defineComponent = Vue.defineComponent;\ntype SetupContext<T> = Vue.SetupContext<T>;"),
+]
+for n, pre in dvars:
+    w(f"names-clash/define-{n}.tsx", pre + "\n" + "\n".join([
+        "interface Props { a: string; b?: number }", "type Ev = { (e: 'go'): void };",
+        "export const A = defineComponent((p: Props, c: SetupContext<Ev>) => () => <div>{p.a}</div>);",
+        "export const B = defineComponent((p: Props = { a: 'x' }) => {});",
+        "function inner(defineComponent: any) { return defineComponent((p: Props) => {}); }",
+        "export default defineComponent((p: { inline: boolean }) => {}, { name: 'N' });",
+    ]), '{"resolveType":true,"optimize":true}')
 print("generated under", os.path.normpath(root))
